@@ -202,6 +202,11 @@ func librarySeeds(rng *rand.Rand, n int) []p7Seed {
 	for i := 0; i < n; i++ {
 		key := rsaKey(2048, i%2)
 		cert := simpleCert(key, fmt.Sprintf("lib signer %d", i), int64(100+i))
+		if i%2 == 1 {
+			// a serial whose top bit is set: its DER form has a leading zero octet
+			ser := new(big.Int).SetBytes(append([]byte{0xc0 | byte(i)}, randBytes(rng, 7)...))
+			cert = mintCert(key, pkix.Name{CommonName: fmt.Sprintf("lib signer %d", i), Organization: []string{"verif"}}, ser)
+		}
 		content := randBytes(rng, 1+rng.Intn(200))
 		switch i % 3 {
 		case 0: // detached, data
@@ -310,6 +315,49 @@ func otherCerts(s p7Seed, rng *rand.Rand) map[string]*x509.Certificate {
 	return out
 }
 
+// sdOf returns the SignedData node of a parsed blob (ContentInfo-wrapped or bare).
+func sdOf(root *dnode) *dnode {
+	if c := root.at(0); c != nil && c.tag == 0x06 {
+		return root.at(1, 0)
+	}
+	return root
+}
+
+// graftSigner returns the attacker's blob with the first signer entry (and the
+// certificates) of the genuine blob appended behind the attacker's own: the
+// content and the first signer are the attacker's, the second signer carries a
+// valid signature of the genuine key over attributes that speak of other content.
+func graftSigner(attacker, genuine []byte) []byte {
+	ra, rg := parseDER(attacker, 0), parseDER(genuine, 0)
+	if len(ra) != 1 || len(rg) != 1 {
+		return nil
+	}
+	root := ra[0].clone()
+	sa, sg := sdOf(root), sdOf(rg[0])
+	if sa == nil || sg == nil || len(sa.children) < 4 || len(sg.children) < 4 {
+		return nil
+	}
+	find := func(sd *dnode, tag byte) *dnode {
+		for i, ch := range sd.children {
+			if ch.tag == tag && i >= 2 {
+				return ch
+			}
+		}
+		return nil
+	}
+	sia, sig := find(sa, 0x31), find(sg, 0x31)
+	if sia == nil || sig == nil || len(sig.children) == 0 {
+		return nil
+	}
+	sia.children = append(sia.children, sig.children[0].clone())
+	if ca, cg := find(sa, 0xa0), find(sg, 0xa0); ca != nil && cg != nil {
+		for _, ch := range cg.children {
+			ca.children = append(ca.children, ch.clone())
+		}
+	}
+	return root.encode()
+}
+
 // mutate: DER-aware derivations of a blob. Returns (class, blob) pairs.
 func p7Mutants(s p7Seed, rng *rand.Rand, nflip int) [][2]interface{} {
 	var out [][2]interface{}
@@ -323,6 +371,24 @@ func p7Mutants(s p7Seed, rng *rand.Rand, nflip int) [][2]interface{} {
 		} else {
 			m[p] = byte(rng.Intn(256))
 			add("byte-change", m)
+		}
+	}
+	// the two-signer forgery: somebody else signs other content of the same kind and the
+	// genuine signer entry is appended behind theirs
+	if s.key != nil && (s.name == "library/embedded" || s.name == "library/authenticode") {
+		ak := rsaKey(2048, 3)
+		ac := simpleCert(ak, "attacker", 666)
+		var ab []byte
+		var err error
+		if s.name == "library/authenticode" {
+			ab, err = authenticode.SignAuthenticode(ak, ac, bytes.NewReader(randBytes(rng, 40)), crypto.SHA256)
+		} else {
+			ab, err = pkcs7.SignPKCS7(ak, ac, encasn1.ObjectIdentifier{1, 3, 6, 1, 4, 1, 311, 2, 1, 4}, randBytes(rng, 40))
+		}
+		if err == nil {
+			if g := graftSigner(ab, s.blob); g != nil {
+				add("genuine-signer-behind-foreign-content", g)
+			}
 		}
 	}
 	roots := parseDER(s.blob, 0)
@@ -528,6 +594,34 @@ func p7Mutants(s p7Seed, rng *rand.Rand, nflip int) [][2]interface{} {
 		ser.val = []byte{0x01, 0x02, 0x03}
 		return true
 	})
+	// the same magnitude with another sign or a non-minimal form names another (or no) serial
+	serialEdit := func(name string, f func(v []byte) []byte) {
+		edit(name, func(sd *dnode) bool {
+			sis := signerInfos(sd)
+			if sis == nil || len(sis.children) == 0 {
+				return false
+			}
+			ser := sis.children[0].at(1, 1)
+			if ser == nil || ser.tag != 0x02 || len(ser.val) == 0 {
+				return false
+			}
+			nv := f(append([]byte{}, ser.val...))
+			if nv == nil {
+				return false
+			}
+			ser.val = nv
+			return true
+		})
+	}
+	serialEdit("signer-serial-drop-leading-zero", func(v []byte) []byte {
+		if len(v) < 2 || v[0] != 0 {
+			return nil
+		}
+		return v[1:]
+	})
+	serialEdit("signer-serial-add-leading-zero", func(v []byte) []byte { return append([]byte{0}, v...) })
+	serialEdit("signer-serial-sign-extend", func(v []byte) []byte { return append([]byte{0xff}, v...) })
+	serialEdit("signer-serial-flip-sign", func(v []byte) []byte { v[0] ^= 0x80; return v })
 	edit("duplicate-signer", func(sd *dnode) bool {
 		sis := signerInfos(sd)
 		if sis == nil || len(sis.children) == 0 {
